@@ -104,8 +104,14 @@ def d4(ck: Check) -> None:
         dflt = [n for n in own_walk(f.node) if isinstance(n, ast.Assign) and text(n.targets[0]) == "max_drivers_per_succession_node"]
         if not dflt or not any(text(dflt[0].value) == f"len({nm})" for nm in inner_names):
             probs.append("default size bound is not the size of the (inner) motif")
-    ck.ob("D4", fm, loops[0] if loops else f.node, not probs, "; ".join(probs) if probs else
-          "sizes 0..max ascending, sets = combinations(pool, size)", key="size enumeration")
+    # all sizes are enumerated: a driver set of a larger size can be inclusion-minimal next to smaller ones
+    for lp_ in ([loops[0]] if loops else []) + [cl]:
+        for x in ast.walk(lp_):
+            if isinstance(x, (ast.Break, ast.Return)) and fm.cfg.enclosing_loops(fm.cfgn(x))[:1] in ([loops[0]] if loops else [], [cl]):
+                probs.append(f"line {x.lineno}: `{text(x)[:30]}` ends the enumeration of driver sets early: minimum-size sets were "
+                             f"found, but larger inclusion-minimal sets (not supersets of them) are never tested")
+    ck.ob("D4", fm, loops[0] if loops else f.node, not probs, "; ".join(sorted(set(probs))) if probs else
+          "sizes 0..max ascending, sets = combinations(pool, size), no early exit", key="size enumeration")
     # subset skip
     probs = []
     DS = text(cl.target)
@@ -289,7 +295,10 @@ def d6(ck: Check) -> None:
         if not is_true(red):
             probs.append("motifs are not reduced by the parent's space (steps would repeat values that are already fixed)")
         g = lc.generators[0]
-        if g.ifs or text(g.iter) != f"zip({text(pl.target)}[:-1], {text(pl.target)}[1:])":
+        P_ = text(pl.target)
+        # consecutive pairs of the whole path: zip stops at the shorter argument, so `zip(p, p[1:])` is the same thing;
+        # also itertools.pairwise(p)
+        if g.ifs or text(g.iter) not in (f"zip({P_}[:-1], {P_}[1:])", f"zip({P_}, {P_}[1:])", f"pairwise({P_})", f"itertools.pairwise({P_})"):
             probs.append(f"edges of the path are `{text(g.iter)}`, expected consecutive pairs of the whole path")
         if [text(a) for a in c.args[:2]] != [text(t) for t in g.target.elts]:
             probs.append("motifs are read for (child, parent) instead of (parent, child)")
